@@ -13,6 +13,10 @@ CHECKS = {
    technique="TLC model checking of spec/Store.tla (call histories over create/update/promise/fulfil/get/save incl. failing save; ReadYourWrites, SameRef, ReloadExact, Retry, Prefix) + transition-cover and random-walk replay on real Storage/File",
    text="TLC checks the intended design of the store against the five C09 invariants on the full reachable graph (<=4 calls quick, <=6 thorough) and refutes seven deviation switches; a transition cover (one shortest path per distinct (state,last call)) plus seeded random walks are replayed on generated base files (raw/compressed/stream objects, junk prefix, two xref layouts, cached File API and uncached Storage API) with every reference resolved and typed-loaded after every call and the saved bytes reloaded after every save; oracle = ghost Expected of the spec.",
    note="Bounded histories and value domain; trusted: TLC, mkpdf base files, value abstraction (dictionaries by key set). One recorded finding (dictionary merge on repeated update) is predicted by the as-built model and suppressed only where the observation equals that prediction."),
+ "C07": dict(level="model_checking", design="5/C07", engine="A:pagetree",
+   technique="TLC model checking of spec/PageTree.tla (descent loop one kid per step + inheritance walk vs DFS leaf order / nearest ancestor over all small ordered trees and 12-level chains) + replay of every tree as a real document",
+   text="TLC builds every ordered page tree up to the bound with every placement of the inheritable attributes, runs the transcribed descent loop for every index 0..count+2 and checks it against the DFS leaf sequence and nearest-ancestor definition; four deviation switches (range test, leaf advance, inheritance walk, depth budget) are refuted; each tree is written as a real file and num_pages/get_page/pages/media_box/crop_box/resources are compared with the spec's expectation.",
+   note="Bounded tree size and attribute placements; trusted: TLC, mkpdf, projection via /Marker, box coordinates and ExtGState names."),
 }
 
 def main():
